@@ -122,20 +122,74 @@ def lower_bounded(p: str, conds, params) -> Optional[str]:
             return f"{c!r}"            # pinned to another quantity of the state (p == holding / p == 0)
         if c.op not in ("<", "<="):
             continue
-        d = derivative(c.x, atom)
+        cx = c.x
+        if not cx.d.is_const():
+            # a condition on p scaled by a positive quantity (an index, a price, a power of ten): same sign as its numerator
+            from .guard import _pos_monomial
+            from ..norm import Poly
+            from fractions import Fraction
+            if _pos_monomial(cx.d):
+                cx = Rat(cx.n, Poly({(): Fraction(1)}))
+        d = derivative(cx, atom)
         if not d.is_const() or d.const_value() >= 0:
             continue
-        rest = subst(c.x, {atom: Rat.const(0)})
+        rest = subst(cx, {atom: Rat.const(0)})
         if _nonneg_const_or_state(rest, params):
             return f"{c!r}"
     return None
 
 
-def run_posarg(model: Model, res, rule: str = "R-POS", max_paths: int = 3000):
+_W = {}
+
+
+def _one(i):
+    """Worker (forked: the model is inherited): analyse entry point i, return plain data."""
+    model, eps, max_paths = _W["model"], _W["eps"], _W["max_paths"]
+    from ..report import Result
+    r = Result("C03", "worker")
+    out = _analyse(model, r, [eps[i]], "R-POS", max_paths)
+    return (out, [(f.rule, f.func, f.construct, f.where, f.message, f.detail) for f in r.findings],
+            [(o.rule, o.instance, o.site, o.verdict, o.detail) for o in r.obligations], r.notes)
+
+
+def run_posarg(model: Model, res, rule: str = "R-POS", max_paths: int = 3000, jobs: int = 8):
+    eps = [(f, c) for f, c in entry_points(model) if f.params[1:] + f.kwonly]
+    import multiprocessing as mp
+    import os
+    rows = None
+    if jobs > 1 and hasattr(os, "fork"):
+        try:
+            _W.update(model=model, eps=eps, max_paths=max_paths)
+            ctx = mp.get_context("fork")
+            with ctx.Pool(min(jobs, os.cpu_count() or 1)) as pool:
+                rows = pool.map(_one, range(len(eps)), chunksize=1)
+        except Exception:  # noqa - fall back to the sequential pass
+            rows = None
+    if rows is None:
+        n_ops, n_mov, und = _analyse(model, res, eps, rule, max_paths)
+    else:
+        n_ops = n_mov = 0
+        und = []
+        for (a_, b_, u_), finds, obs, notes in rows:
+            n_ops += a_
+            n_mov += b_
+            und += u_
+            for (rl, inst, site, verdict, detail) in obs:
+                res.ob(rl, inst, site, ok=(verdict == "discharged"), detail=detail)
+            for (rl, fn, cons, where, msg, detail) in finds:
+                res.find(rl, fn, cons, where, msg, detail)
+    res.units["operations_moving_value"] = n_ops
+    res.units["value_movements_examined"] = n_mov
+    if und:
+        res.notes.append("R-POS not decided (outside the evaluator's language): " + ", ".join(und))
+        res.units["operations_not_decided_by_R-POS"] = len(und)
+    return n_ops, n_mov
+
+
+def _analyse(model: Model, res, eps, rule: str, max_paths: int):
     n_ops = 0
     n_mov = 0
     undecided: List[str] = []
-    eps = list(entry_points(model))
     fxcalls = sorted(set(EFFECT_CALLS) | set(WALLET_CALLS))
     for f, c in eps:
         params = [p for p in f.params[1:] + f.kwonly]
@@ -194,15 +248,10 @@ def run_posarg(model: Model, res, rule: str = "R-POS", max_paths: int = 3000):
         res.ob(rule, f"{entry}: amount parameters {sorted(set(bad) | set(okp)) or '-'} are rejected when negative before anything moves", f.loc(), ok=not bad,
                detail="; ".join(f"{p}: {okp[p]}" for p in sorted(okp) if p not in bad)[:300])
         for p, (what, amt, cs) in sorted(bad.items()):
-            res.find(rule, entry, f"negative `{p}` reaches {what}", f.loc(),
+            res.find(rule, entry, f"negative `{p}` is not rejected", f.loc(),
                      f"{entry}: the parameter `{p}` reaches `{what}` as `{amt}` on a path that never requires it to be non-negative "
                      f"(guards on that path: {cs}). The wallet primitives do not reject negative amounts (a negative debit is a credit, a "
                      f"negative credit an unchecked debit), so a negative `{p}` runs the operation backwards: a holding can become negative "
                      f"or value is paid out that nothing was given for",
                      {"entry": entry, "param": p, "sink": what})
-    res.units["operations_moving_value"] = n_ops
-    res.units["value_movements_examined"] = n_mov
-    if undecided:
-        res.notes.append("R-POS not decided (outside the evaluator's language): " + ", ".join(undecided))
-        res.units["operations_not_decided_by_R-POS"] = len(undecided)
-    return n_ops, n_mov
+    return n_ops, n_mov, undecided
